@@ -59,6 +59,9 @@ pub struct TableProvider {
     pub probe_log: RefCell<Vec<(u32, bool, bool)>>,
     /// record Filter/Sort calls too (off by default to keep logs small)
     pub log_all: Cell<bool>,
+    /// filter_candidates answers in reverse listing order (the trait does not promise any
+    /// order, and callers must not assume one)
+    pub filter_reversed: Cell<bool>,
 }
 
 impl TableProvider {
@@ -75,6 +78,7 @@ impl TableProvider {
             probe: Cell::new(SortProbe::Off),
             probe_log: RefCell::new(Vec::new()),
             log_all: Cell::new(false),
+            filter_reversed: Cell::new(false),
         }
     }
 
@@ -236,11 +240,15 @@ impl DependencyProvider for TableProvider {
         }
         self.gate(ReqKind::Filter, version_set.0).await;
         let vs = self.vs(version_set);
-        candidates
+        let mut out: Vec<SolvableId> = candidates
             .iter()
             .copied()
             .filter(|&c| self.u.vs_matches(vs, self.sref(c)) != inverse)
-            .collect()
+            .collect();
+        if self.filter_reversed.get() {
+            out.reverse();
+        }
+        out
     }
 
     async fn get_candidates(&self, name: NameId) -> Option<Candidates> {
